@@ -4,6 +4,7 @@ import (
 	"bufio"
 	"encoding/json"
 	"fmt"
+	"io"
 	"os"
 	"path/filepath"
 	"sort"
@@ -92,7 +93,7 @@ func (r *Report) Check(cond bool, rule, construct, pos, okDetail, failDetail str
 	return cond
 }
 func (r *Report) Note(format string, a ...any) { r.Notes = append(r.Notes, fmt.Sprintf(format, a...)) }
-func (r *Report) Assume(s string) { r.Assumptions = append(r.Assumptions, s) }
+func (r *Report) Assume(s string)              { r.Assumptions = append(r.Assumptions, s) }
 
 // ---- known findings ----
 
@@ -136,7 +137,7 @@ func loadKnown(path string) ([]KnownFinding, error) {
 func (r *Report) Finish(verifDir, tier string, seed int64, start time.Time, stats map[string]any) int {
 	known, err := loadKnown(filepath.Join(verifDir, "known_findings.jsonl"))
 	if err != nil {
-		fmt.Println("ERROR:", err)
+		fmt.Fprintln(finishOut, "ERROR:", err)
 		r.Fail("engine", "known_findings.jsonl", "", err.Error())
 	}
 	// floors
@@ -189,7 +190,7 @@ func (r *Report) Finish(verifDir, tier string, seed int64, start time.Time, stat
 				if k.Status == "known" && k.Property == r.Prop && k.Rule == o.Rule && normConstruct(k.Construct) == normConstruct(o.Construct) {
 					matched = true
 					o.Known = k.ID
-					fmt.Printf("KNOWN-FINDING: property=%s %s [%s %s] %s\n", r.Prop, k.ID, o.Rule, o.Construct, k.What)
+					fmt.Fprintf(finishOut, "KNOWN-FINDING: property=%s %s [%s %s] %s\n", r.Prop, k.ID, o.Rule, o.Construct, k.What)
 					knownMatched = append(knownMatched, k.ID)
 					break
 				}
@@ -217,8 +218,8 @@ func (r *Report) Finish(verifDir, tier string, seed int64, start time.Time, stat
 		b, _ := json.MarshalIndent(map[string]any{"property": r.Prop, "rule": o.Rule, "construct": o.Construct,
 			"status": o.Status, "detail": o.Detail, "pos": o.Pos, "rule_text": r.rules[o.Rule].What}, "", " ")
 		os.WriteFile(p, b, 0o644)
-		fmt.Printf("REPORT %s %s %s: %s -- %s (%s)\n", r.Prop, o.Rule, o.Status, o.Construct, o.Detail, o.Pos)
-		fmt.Printf("VIOLATION property=%s replay=%s\n", r.Prop, p)
+		fmt.Fprintf(finishOut, "REPORT %s %s %s: %s -- %s (%s)\n", r.Prop, o.Rule, o.Status, o.Construct, o.Detail, o.Pos)
+		fmt.Fprintf(finishOut, "VIOLATION property=%s replay=%s\n", r.Prop, p)
 	}
 	// evidence
 	var rules []*RuleStat
@@ -287,16 +288,19 @@ func (r *Report) Finish(verifDir, tier string, seed int64, start time.Time, stat
 	b, _ := json.MarshalIndent(ev, "", " ")
 	os.MkdirAll(filepath.Join(verifDir, "evidence"), 0o755)
 	if err := os.WriteFile(filepath.Join(verifDir, "evidence", r.Prop+".json"), b, 0o644); err != nil {
-		fmt.Println("ERROR writing evidence:", err)
+		fmt.Fprintln(finishOut, "ERROR writing evidence:", err)
 		return 1
 	}
-	fmt.Printf("SUMMARY property=%s tier=%s obligations=%d discharged=%d known=%d violations=%d wall=%.1fs\n",
+	fmt.Fprintf(finishOut, "SUMMARY property=%s tier=%s obligations=%d discharged=%d known=%d violations=%d wall=%.1fs\n",
 		r.Prop, tier, nob, ndis, len(knownMatched), nviol, time.Since(start).Seconds())
 	if nviol > 0 {
 		return 1
 	}
 	return 0
 }
+
+// finishOut receives what Finish prints (main redirects it while it decides on the inlined normal form).
+var finishOut io.Writer = os.Stdout
 
 // normConstruct: a finding is about a function, not about whether its receiver is a value or a pointer today.
 func normConstruct(c string) string {
